@@ -827,6 +827,9 @@ func c19(r *h.Result, rng *h.Rng, tier string, replay string) error {
 	if err := c19Cluster(r, rng.Fork(), tier, keys); err != nil {
 		return err
 	}
+	if err := c19CtrlRotate(r, rng.Fork(), tier, keys); err != nil {
+		return err
+	}
 	r.Exhaustive = true
 	r.Notes = append(r.Notes, "exhaustive = per generated configuration every statement of the run was taken as the failure point (both fault modes in the quick tier); the set of configurations is sampled")
 	return nil
